@@ -55,6 +55,16 @@ func (a *Analyzer) FlagWiring(mainFn, runFn, configType string) []RuleResult {
 		}
 		if g != nil && name != "" {
 			bound[name] = g
+			// a list-valued option is given as a comma-separated value AND by repeating the flag; of pflag's registrations only
+			// StringSliceVar(P) does both (StringArrayVar does not split "json,yaml", a StringVar keeps only the last occurrence)
+			if g.Type().String() == "*[]string" {
+				okk := cal.Name() == "StringSliceVar" || cal.Name() == "StringSliceVarP"
+				why := "registered with " + cal.Name()
+				if !okk {
+					why += ": a comma-separated value is not split, or a repeated flag does not accumulate — the generator then sees one malformed element (e.g. the tag name \"json,yaml\") or only the last value"
+				}
+				out = append(out, RuleResult{"B-FLAG", mainFn, "list flag --" + name + " splits commas and accumulates", a.P.InstrPos(c.(ssa.Instruction)), okk, why})
+			}
 		}
 	}
 	// 2. Config field -> global it is loaded from (stores through FieldAddr of an alloc of configType in the Run closure)
